@@ -5,3 +5,10 @@ import J5V.Props.C14
 #print axioms J5V.Props.C14.C14_resolve_perm
 #print axioms J5V.Props.C14.C14_ctx_perm
 #print axioms J5V.Props.C14.C14_convertFile_perm
+#print axioms J5V.Props.C14.C14_perm_files
+#print axioms J5V.Props.C14.C14_sorted_files_perm
+#print axioms J5V.Props.C14.C14_deps_independent
+#print axioms J5V.Props.C14.C14_order_calls
+#print axioms J5V.Props.C14.C14_order_calls_pair
+#print axioms J5V.Props.C14.C14_load_indep
+#print axioms J5V.Props.C14.C14_src_map_ranges_classified
